@@ -24,7 +24,7 @@
    pattern type P, polarity [excl], cleaned text [ptext] and matcher [m]. *)
 From Coq Require Import List Bool Arith String Ascii.
 Import ListNotations.
-From Mv Require Import Model.Entry Model.IgnoreScan Model.IgnoreDocker.
+From Mv Require Import Model.Entry Model.IgnoreScan Model.IgnoreMutagen Model.IgnoreDocker.
 From Mv Require Import Proof.IgnoreScan Proof.IgnoreDocker Proof.Phantom Proof.C15Main.
 Open Scope list_scope.
 
@@ -141,6 +141,25 @@ Theorem c15_reify_one_sided :
          r_a := Some (reify_spec anc e); r_b := None; r_oof := false |}.
 Proof. exact reify_one_sided_top. Qed.
 
+(* ---- pattern preprocessing ---- *)
+(* Every user pattern Mutagen accepts (docker/ignore.go, then
+   patternmatcher.New) is read exactly as Docker's .dockerignore reader followed
+   by patternmatcher.New reads it: same polarity, same cleaned text. ('#' lines
+   are comments for Docker's file reader only.) *)
+Theorem c15_preprocessing_agrees :
+  forall raw x,
+    match raw with c :: _ => Ascii.eqb c "#"%char = false | [] => True end ->
+    mutagen_prep raw = Some x -> docker_prep raw = Some x.
+Proof. exact prep_agree. Qed.
+
+Example c15_preprocessing_examples :
+  mutagen_prep (str_of "!./vendor/keep") = Some (true, str_of "vendor/keep")
+  /\ mutagen_prep (str_of "!tmp/../build/out") = Some (true, str_of "build/out")
+  /\ mutagen_prep (str_of "! /a//b/.") = Some (true, str_of "a/b")
+  /\ mutagen_prep (str_of "/") = None
+  /\ docker_prep (str_of "!./vendor/keep") = Some (true, str_of "vendor/keep").
+Proof. exact prep_examples. Qed.
+
 (* ---- refutation of the full statement inside the class ---- *)
 Theorem c15_refuted :
   (known_C15 dexcl dmatch w1_pats (rp_of "a/b/f") = true
@@ -185,5 +204,6 @@ Print Assumptions c15_phantom_iff_excluded.
 Print Assumptions c15_excluded_directory_rule.
 Print Assumptions c15_reify_keeps_leaves.
 Print Assumptions c15_reify_one_sided.
+Print Assumptions c15_preprocessing_agrees.
 Print Assumptions c15_refuted.
 Print Assumptions c15_check_sound.
